@@ -95,3 +95,160 @@ def valid(ver, level, mask, segs):
 
 def terminator_bits(ver):
     return 3
+
+
+# ---- geometry written from the standard as remembered; compared with /repo's tables by C02
+ALIGN_COLS = {27: [], 43: [21], 59: [19, 39], 77: [25, 51], 99: [23, 49, 75], 139: [27, 55, 83, 111]}
+
+
+def function_patterns(ver):
+    h, w = SIZES[ver]
+    m = [[0] * w for _ in range(h)]
+    f = [[False] * w for _ in range(h)]
+
+    def setf(x, y, v):
+        if 0 <= x < w and 0 <= y < h:
+            m[y][x] = 1 if v else 0
+            f[y][x] = True
+    # timing patterns on all four edges
+    for x in range(w):
+        setf(x, 0, x % 2 == 0)
+        setf(x, h - 1, x % 2 == 0)
+    for y in range(h):
+        setf(0, y, y % 2 == 0)
+        setf(w - 1, y, y % 2 == 0)
+    # alignment columns: vertical timing, 3x3 patterns at top and bottom
+    for cx in ALIGN_COLS[w]:
+        for y in range(h):
+            setf(cx, y, y % 2 == 0)
+        for cy in (1, h - 2):
+            for dy in (-1, 0, 1):
+                for dx in (-1, 0, 1):
+                    setf(cx + dx, cy + dy, not (dx == 0 and dy == 0))
+    # finder pattern with separator (top-left)
+    for y in range(8):
+        for x in range(8):
+            d = max(abs(x - 3), abs(y - 3))
+            setf(x, y, d not in (2, 4) and x <= 6 and y <= 6)
+    # finder sub pattern (bottom-right), 5x5
+    for dy in range(-2, 3):
+        for dx in range(-2, 3):
+            setf(w - 3 + dx, h - 3 + dy, max(abs(dx), abs(dy)) != 1)
+    # corner finder patterns
+    setf(w - 1, 0, 1); setf(w - 2, 0, 1); setf(w - 1, 1, 1); setf(w - 2, 1, 0)
+    if h > 7:
+        setf(0, h - 1, 1); setf(1, h - 1, 1); setf(0, h - 2, 1); setf(1, h - 2, 0)
+    # format information areas
+    for i in range(18):
+        setf(8 + i // 5, 1 + i % 5, 0)
+    for i in range(15):
+        setf(w - 8 + i // 5, h - 6 + i % 5, 0)
+    setf(w - 5, h - 6, 0); setf(w - 4, h - 6, 0); setf(w - 3, h - 6, 0)
+    return m, f
+
+
+def seg_bits(mode, data, ver, level):
+    k = KIND[mode]
+    b = bits_of(mode, 3) + bits_of(seg_count(mode, data), count_bits_kind(k, ver, level))
+    if k == 'num':
+        s = data.decode()
+        for i in range(0, len(s), 3):
+            g = s[i:i + 3]
+            b += bits_of(int(g), (0, 4, 7, 10)[len(g)])
+    elif k == 'alnum':
+        for i in range(0, len(data) - 1, 2):
+            b += bits_of(ALNUM.index(data[i]) * 45 + ALNUM.index(data[i + 1]), 11)
+        if len(data) % 2:
+            b += bits_of(ALNUM.index(data[-1]), 6)
+    elif k == 'byte':
+        for c in data:
+            b += bits_of(c, 8)
+    else:
+        for c in utf8_chars(data):
+            b += bits_of(REF_INV[c], 13)
+    return b
+
+
+def data_bytes(ver, level, segs):
+    capb = capacity_bits(ver, level)
+    b = []
+    for mode, data in segs:
+        b += seg_bits(mode, data, ver, level)
+    assert len(b) <= capb
+    b += [0] * min(3, capb - len(b))
+    b += [0] * (-len(b) % 8)
+    out = bytearray(int(''.join(map(str, b[i:i + 8])), 2) for i in range(0, len(b), 8))
+    pad = 0xEC
+    while len(out) < capb // 8:
+        out.append(pad)
+        pad ^= 0xEC ^ 0x11
+    return bytes(out)
+
+
+def interleaved(ver, level, data):
+    from checks import gf256
+    ds, es, k = [], [], 0
+    for (num, total, dlen, _, _) in cap(ver, level)['blocks']:
+        for _ in range(num):
+            blk = data[k:k + dlen]
+            k += dlen
+            ds.append(blk)
+            es.append(gf256.parity(total - dlen, blk))
+    out = bytearray()
+    for i in range(max(len(d) for d in ds)):
+        for d in ds:
+            if i < len(d):
+                out.append(d[i])
+    for i in range(max(len(e) for e in es)):
+        for e in es:
+            if i < len(e):
+                out.append(e[i])
+    return bytes(out)
+
+
+def data_coords(ver, f):
+    h, w = SIZES[ver]
+    out = []
+    right = w - 2
+    up = True
+    while right >= 2:
+        for vert in range(h - 2):
+            y = h - 2 - vert if up else 1 + vert
+            for j in range(2):
+                x = right - j
+                if not f[y][x]:
+                    out.append((x, y))
+        up = not up
+        right -= 2
+    return out
+
+
+def format_word(ver, level):
+    return bch(ver | (level << 5), 0x1F25, 13, 18)
+
+
+def encode_forms(ver, level, mask, segs):
+    h, w = SIZES[ver]
+    m, f = function_patterns(ver)
+    cw = interleaved(ver, level, data_bytes(ver, level, segs))
+    bits = [b for c in cw for b in bits_of(c, 8)]
+    coords = data_coords(ver, f)
+    for k, (x, y) in enumerate(coords):
+        v = bits[k] if k < len(bits) else 0
+        if (y // 2 + x // 3) % 2 == 0:
+            v ^= 1
+        m[y][x] = v
+    fw = format_word(ver, level)
+    for i in range(18):
+        m[1 + i % 5][8 + i // 5] = ((fw ^ 0x1FAB2) >> i) & 1
+    for i in range(15):
+        m[h - 6 + i % 5][w - 8 + i // 5] = ((fw ^ 0x20A7B) >> i) & 1
+    for j, i in enumerate((15, 16, 17)):
+        m[h - 6][w - 5 + j] = ((fw ^ 0x20A7B) >> i) & 1
+    forms = [m]
+    if h == 9:
+        # unresolved between the two oracles: module (0, h-2) of R9 symbols (corner finder vs separator)
+        m2 = [row[:] for row in m]
+        m2[h - 2][0] = 0
+        forms.append(m2)
+    return forms, len(coords), len(bits)
